@@ -313,6 +313,127 @@ func main() {
 			}
 		}
 	}
+	// package-level variables and the functions that assign to them (shared memory outside any struct: C12)
+	globalWrites := []string{}
+	collectGlobalWrites := func(prefix string, ps map[string]*ast.Package) {
+		globals := map[string]bool{}
+		for _, pkg := range ps {
+			for _, f := range pkg.Files {
+				for _, d := range f.Decls {
+					if g, ok := d.(*ast.GenDecl); ok && g.Tok == token.VAR {
+						for _, sp := range g.Specs {
+							if vs, ok := sp.(*ast.ValueSpec); ok {
+								for _, n := range vs.Names {
+									globals[n.Name] = true
+								}
+							}
+						}
+					}
+				}
+			}
+		}
+		rootIdent := func(e ast.Expr) *ast.Ident {
+			for {
+				switch x := e.(type) {
+				case *ast.Ident:
+					return x
+				case *ast.IndexExpr:
+					e = x.X
+				case *ast.SelectorExpr:
+					e = x.X
+				case *ast.StarExpr:
+					e = x.X
+				case *ast.ParenExpr:
+					e = x.X
+				default:
+					return nil
+				}
+			}
+		}
+		for _, pkg := range ps {
+			for _, f := range pkg.Files {
+				for _, d := range f.Decls {
+					x, ok := d.(*ast.FuncDecl)
+					if !ok || x.Body == nil {
+						continue
+					}
+					name := x.Name.Name
+					if x.Recv != nil && len(x.Recv.List) > 0 {
+						name = strings.TrimPrefix(src(x.Recv.List[0].Type), "*") + "." + name
+					}
+					// names declared locally (parameters, :=, var) shadow the package-level ones
+					local := map[string]bool{}
+					if x.Type.Params != nil {
+						for _, fl := range x.Type.Params.List {
+							for _, n := range fl.Names {
+								local[n.Name] = true
+							}
+						}
+					}
+					if x.Type.Results != nil {
+						for _, fl := range x.Type.Results.List {
+							for _, n := range fl.Names {
+								local[n.Name] = true
+							}
+						}
+					}
+					ast.Inspect(x.Body, func(n ast.Node) bool {
+						switch a := n.(type) {
+						case *ast.AssignStmt:
+							if a.Tok == token.DEFINE {
+								for _, l := range a.Lhs {
+									if id, ok := l.(*ast.Ident); ok {
+										local[id.Name] = true
+									}
+								}
+							}
+						case *ast.ValueSpec:
+							for _, id := range a.Names {
+								local[id.Name] = true
+							}
+						case *ast.RangeStmt:
+							if a.Tok == token.DEFINE {
+								for _, l := range []ast.Expr{a.Key, a.Value} {
+									if id, ok := l.(*ast.Ident); ok {
+										local[id.Name] = true
+									}
+								}
+							}
+						}
+						return true
+					})
+					seen := map[string]bool{}
+					note := func(e ast.Expr) {
+						if id := rootIdent(e); id != nil && globals[id.Name] && !local[id.Name] && !seen[id.Name] {
+							seen[id.Name] = true
+							globalWrites = append(globalWrites, "("+q(prefix+name)+", "+q(id.Name)+")")
+						}
+					}
+					ast.Inspect(x.Body, func(n ast.Node) bool {
+						switch a := n.(type) {
+						case *ast.AssignStmt:
+							if a.Tok != token.DEFINE {
+								for _, l := range a.Lhs {
+									note(l)
+								}
+							}
+						case *ast.IncDecStmt:
+							note(a.X)
+						}
+						return true
+					})
+				}
+			}
+		}
+	}
+	collectGlobalWrites("", pkgs)
+	if cp2, err := parser.ParseDir(fset, filepath.Join(root, "components"), func(fi os.FileInfo) bool {
+		n := fi.Name()
+		return !strings.HasSuffix(n, "_test.go") && n != "export_verif.go"
+	}, 0); err == nil {
+		collectGlobalWrites("components.", cp2)
+	}
+	sort.Strings(globalWrites)
 	strLits := map[string][]string{} // function -> string literals passed to regexp compile calls
 	for _, pkg := range pkgs {
 		files := []string{}
@@ -395,6 +516,7 @@ func main() {
 		fmt.Printf("Definition regexps_%s : list string := [%s].\n", strings.ReplaceAll(fn, ".", "_"), strings.Join(ls, "; "))
 	}
 	fmt.Println()
+	fmt.Printf("Definition global_writes : list (string * string) :=\n  [%s].\n\n", strings.Join(globalWrites, "; "))
 	for _, name := range want {
 		body, ok := funcs[name]
 		if !ok {
